@@ -4,6 +4,7 @@ import (
 	"crypto/md5"
 	"encoding/hex"
 	"io"
+	"sort"
 	"sync"
 
 	"github.com/johannesboyne/gofakes3"
@@ -69,6 +70,10 @@ func (db *Backend) ListBuckets() ([]gofakes3.BucketInfo, error) {
 			CreationDate: bucket.creationDate,
 		})
 	}
+
+	// map iteration order is random; S3 (and the other backends) list
+	// buckets by name
+	sort.Slice(buckets, func(i, j int) bool { return buckets[i].Name < buckets[j].Name })
 
 	return buckets, nil
 }
